@@ -174,6 +174,74 @@ def evaluate(hist, variant="plain"):
     return None, info
 
 
+# ---------------------------------------------------------------------------
+# stationary workloads with a tight, calibrated bound (the histories above bound the heap by 16 x peak live data, which
+# a collector that merely recycles badly still meets)
+
+WORKLOADS = {
+    # growing request sizes with nothing kept: every request fits into what the previous collection freed
+    "w1": """(define (w1 n step) (do ((i 1 (+ i step))) ((> i n)) (make-vector i 0)))
+(write (list 'start (verif-heap-total) 0)) (newline)
+(do ((r 0 (+ r 1))) ((= r %(rounds)d)) (w1 %(n)d %(step)d) (verif-gc) (write (list r (verif-heap-total) (- (verif-heap-total) (verif-heap-free)))) (newline))""",
+    # churn of large objects, two of them live at any time
+    "w2": """(define keep (vector #f #f))
+(write (list 'start (verif-heap-total) 0)) (newline)
+(do ((r 0 (+ r 1))) ((= r %(rounds)d)) (do ((i 0 (+ i 1))) ((= i %(count)d)) (vector-set! keep (modulo i 2) (make-bytevector %(size)d 0))) (verif-gc) (write (list r (verif-heap-total) (- (verif-heap-total) (verif-heap-free)))) (newline))""",
+    # a large object is dropped and collected, then a larger one (less than twice the size) is requested
+    "w3": """(write (list 'start (verif-heap-total) 0)) (newline)
+(define x (make-bytevector %(a)d 0)) (write (list 0 (verif-heap-total) %(a)d)) (newline) (set! x #f) (verif-gc)
+(define y (make-bytevector %(b)d 0)) (write (list 1 (verif-heap-total) %(b)d)) (newline)""",
+}
+
+
+def evaluate_workload(case, variant="plain"):
+    prog = WORKLOADS[case["workload"]] % case
+    r = driver(variant).run(prog, cpu=120, check=1)
+    if r.status in ("cpu", "wall"):
+        return None, "inconclusive"
+    if r.status != "ok":
+        return E.Found("crash/workload", "%s %s\n%s" % (r.status, r.err[-800:], prog)), "ok"
+    if r.end.get("check_fail", 0):
+        return E.Found("heap-check/" + r.end["msg"].split(" at ")[0], "heap checker: %s\nprogram:\n%s" % (r.end["msg"], prog)), "ok"
+    if "#!OOM" in r.body:
+        return E.Found("workload/out-of-memory", "a stationary workload ran out of the 512 MB heap limit\n%s" % prog), "ok"
+    rows = parse_stats(r.body)
+    if len(rows) < 3:
+        return None, "inconclusive"
+    start = rows[0][1][0]
+    totals = [x[1][0] for x in rows[1:]]
+    w = case["workload"]
+    if w == "w1":
+        largest = 8 * case["n"] + 64
+        bound = start + 4 * largest + (4 << 20)
+    elif w == "w2":
+        largest = case["size"]
+        bound = start + 8 * largest + (4 << 20)      # two live objects; calibrated: the unchanged tree needs about 3 x live
+    else:
+        largest = case["b"]
+        bound = start + 4 * largest + (4 << 20)
+    if max(totals) > bound:
+        return E.Found("leak/workload-%s-exceeds-bound" % w, "heap total reaches %d, bound %d (start %d, largest request %d): freed memory is not reused\nrows=%r\nprogram:\n%s"
+                       % (max(totals), bound, start, largest, rows, prog)), "ok"
+    if w in ("w1", "w2") and totals[-1] > 1.25 * totals[0] + largest:
+        return E.Found("leak/workload-%s-keeps-growing" % w, "heap total grows from %d (first round) to %d (last round) under a stationary workload\nrows=%r\nprogram:\n%s"
+                       % (totals[0], totals[-1], rows, prog)), "ok"
+    if w == "w3" and totals[1] > totals[0] + (64 << 10):
+        return E.Found("leak/freed-chunk-not-reused", "after dropping and collecting a %d-byte object the request for %d bytes grew the heap from %d to %d\nprogram:\n%s"
+                       % (case["a"], case["b"], totals[0], totals[1], prog)), "ok"
+    return None, "ok"
+
+
+def gen_workload(rng):
+    w = rng.choice(["w1", "w2", "w3"])
+    if w == "w1":
+        return {"workload": w, "n": rng.choice([2000, 8000, 16000, 40000]), "step": rng.choice([1, 3, 7, 50]), "rounds": 5}
+    if w == "w2":
+        return {"workload": w, "size": rng.choice([300000, 1 << 20, 3000000, 4 << 20, 9000000]), "count": rng.choice([6, 20, 40]), "rounds": 5}
+    a = rng.choice([200000, 1 << 20, 3 << 20, 5000000, 12000000])
+    return {"workload": w, "a": a, "b": int(a * rng.choice([1.05, 1.3, 1.6, 1.9]))}
+
+
 def shards(tier, seed, nshards, known):
     return [{"tier": tier, "seed": seed, "shard": i, "nshards": nshards, "known": known} for i in range(nshards)]
 
@@ -200,6 +268,16 @@ def run_shard(spec):
 
     E.hypothesis_search(history, test, E.subseed(spec["seed"], "C10", spec["shard"]), n, res,
                         to_case=lambda h: {"ops": [list(o) for o in h[0]], "rounds": h[1], "build": variant})
+    rng = random.Random(E.subseed(spec["seed"], "C10w", spec["shard"]))
+    for _ in range(6 if quick else 200):
+        case = gen_workload(rng)
+        found, status = evaluate_workload(case, "plain")
+        if status == "inconclusive":
+            res.inconclusive += 1
+            continue
+        res.case(case, True, cls=["workload:" + case["workload"]], sample=rng.random() < 0.05)
+        if found:
+            res.violation(dict(case), found.signature, found.detail)
     for d in _DRIVERS.values():
         d.close()
     _DRIVERS.clear()
@@ -207,6 +285,11 @@ def run_shard(spec):
 
 
 def replay(case):
+    if "workload" in case:
+        found, status = evaluate_workload(case, "plain")
+        if found:
+            return {"signature": found.signature, "detail": found.detail, "case": case}
+        return None
     h = ([tuple(o) for o in case["ops"]], case["rounds"])
     found, info = evaluate(h, case.get("build", "plain"))
     if found:
